@@ -26,12 +26,17 @@ def setup():
         m.LinearOperator = LinearOperator
         sys.modules["pylops"] = m
     here = os.path.dirname(os.path.abspath(__file__))
+    import logging
+
+    logging.disable(logging.WARNING)
     with contextlib.redirect_stdout(io.StringIO()):
         from autoconf import conf
         import autoarray  # noqa: F401
 
         out = os.path.join(os.environ.get("VERIF_HOME", os.path.dirname(here)), ".work", "autoconf_out")
         conf.instance.push(new_path=os.path.join(here, "conf"), output_path=out)
+    logging.disable(logging.NOTSET)
+    logging.getLogger().setLevel(logging.ERROR)
     repo = os.environ.get("VERIF_REPO", "/repo")
     import autoarray as aa
 
